@@ -31,7 +31,16 @@ func ProtocolOut() *os.File {
 // Rng is splitmix64: every random choice of a run derives from one seed.
 type Rng struct{ s uint64 }
 
-func NewRng(seed uint64) *Rng { return &Rng{s: seed*0x9E3779B97F4A7C15 + 0x1234567} }
+// NewRng: the seed is passed through the splitmix64 finaliser twice before it becomes the state; with a
+// state that is only an affine function of the seed, seed k+1 would replay the stream of seed k shifted by one.
+func NewRng(seed uint64) *Rng {
+	mix := func(z uint64) uint64 {
+		z = (z ^ (z >> 30)) * 0xBF58476D1CE4E5B9
+		z = (z ^ (z >> 27)) * 0x94D049BB133111EB
+		return z ^ (z >> 31)
+	}
+	return &Rng{s: mix(mix(seed+0x9E3779B97F4A7C15) ^ 0xD1B54A32D192ED03)}
+}
 
 func (r *Rng) U64() uint64 {
 	r.s += 0x9E3779B97F4A7C15
